@@ -32,7 +32,7 @@ type ReplayFile struct {
 }
 
 func (r *Run) writeReplay(o *Obligation) string {
-	dir := filepath.Join(r.Out, "replays", r.Prop)
+	dir := filepath.Join(r.EvDir, "replays", r.Prop)
 	os.MkdirAll(dir, 0o755)
 	path := filepath.Join(dir, smtIdent(o.Name)+".json")
 	rf := &ReplayFile{Property: r.Prop, Obligation: o.Name, Class: o.Class, Function: o.Func, Pos: o.Pos, Clause: o.Text, Answer: o.Answer, Solver: o.Backend, SolverOut: o.Output, Model: o.Model}
